@@ -376,7 +376,7 @@ def hintProcessing (pool : List WP) (hint : Option Nat) (key : Nat) : Bool :=
   | some h => match getW pool h with | some p => p.isProcessingKey key | none => false
   | none => false
 
-/-- sticky (F11, fixed): the hinted worker has the key in flight or still queued -/
+/-- sticky (F13, fixed): the hinted worker has the key in flight or still queued -/
 def hintPending (pool : List WP) (hint : Option Nat) (key : Nat) : Bool :=
   match hint with
   | some h => match getW pool h with | some p => p.hasPendingKey key | none => false
